@@ -24,6 +24,7 @@ RULE = ('EVERY cluster-assignment vector of length <= L over the id alphabet {0,
         'selection = sorted union of groups). Plus random long vectors (10^3-10^5 spikes, 1-300 ids) '
         'and the TemplateModel queries on generated datasets. non-trivial = distinct vectors with a gap '
         'in the ids, a single cluster, or an unsigned dtype.')
+RULE += " Added classes: -1 ('unclustered') ids in signed assignment vectors for the functions that accept them; sparse-template models with curated clusters for the model-level counts; per-cluster magnitudes up to 1e17 and NaN / inf members in grouped_mean (other clusters must be unaffected)."
 EXHAUSTIVE = {'quick': True, 'thorough': True}
 EXHAUSTIVE_SCOPE = {'quick': 'length <= 6 over 4 ids', 'thorough': 'length <= 8 over 4 ids, <= 6 over 5 ids'}
 FLOORS = {'quick': {'evaluations': 40000, 'distinct_nontrivial': 20000,
